@@ -26,6 +26,21 @@ type SEnv struct {
 type part struct {
 	term string
 	lab  string
+	tags []string // tags of the predicate clause the part comes from
+}
+
+// tagsFor merges the tags of the using clause with those of the predicate clause.
+func (p part) tagsFor(outer []string) []string {
+	if len(p.tags) == 0 {
+		return outer
+	}
+	out := append([]string{}, outer...)
+	for _, t := range p.tags {
+		if !hasTag(out, t) {
+			out = append(out, t)
+		}
+	}
+	return out
 }
 
 func (p part) label(n int) string {
@@ -68,7 +83,7 @@ func (e *SEnv) evalClause(c *Clause) []part {
 		e.fail(sx, "clause is not Boolean")
 		return nil
 	}
-	return []part{{v.T, c.Label}}
+	return []part{{v.T, c.Label, nil}}
 }
 
 func (e *SEnv) expandPred(p *PredSpec, sx *SX, label string) []part {
@@ -110,7 +125,11 @@ func (e *SEnv) expandPred(p *PredSpec, sx *SX, label string) []part {
 			if label != "" {
 				l = label + "/" + l
 			}
-			out = append(out, part{q.term, l})
+			tg := q.tags
+			if len(tg) == 0 {
+				tg = c.Tags
+			}
+			out = append(out, part{q.term, l, tg})
 		}
 	}
 	return out
